@@ -1,10 +1,10 @@
 # data for tools_manifest.py
 CHECKS = {}
 CHECKS['C03'] = dict(
-    technique='static analysis: grammar-docstring extraction, NoIn/NoBF family image lint, sibling-action cross-check by abstract interpretation, LALR conflict audit (ply as library), definition/production skeleton alignment; thorough adds Earley cross-membership against an embedded ES5.1 grammar',
-    text='Decides the CFG layer of C03: every production/action pair is enumerated (340 productions, ~350 action paths); obligations are exhaustive over the finite tables. Not a proof of language equality with ECMA-262; character-level acceptance is C04-C06.',
-    ref='DESIGN.md section 3 C03',
-    note='Trusted: CPython ast, transcription of ply.yacc.parse_grammar, ply LALR construction used as a library on extracted (lhs, rhs) tuples, embedded ES5.1 reference facts. Analyses /repo/src text only.')
+    technique='static analysis: grammar-docstring extraction, NoIn/NoBF family image lint, sibling-action cross-check by abstract interpretation of the parser actions, LALR conflict audit (ply as a library on extracted tuples), definition/production skeleton alignment, bounded enumeration of the array/elision sub-grammar with the actions evaluated from source against the dictated items, Earley cross-membership against an embedded ES5.1 grammar (pair coverage; thorough: depth 2), automata inclusion of the NUMBER/STRING/REGEX token languages against ES5 7.8.3-7.8.5, plus every rule of C04 (semicolon insertion) and C05 (reading of `/`)',
+    text='Decides the CFG layer (every production/action pair, exhaustive over the finite tables), the literal token languages (exact, automata), and the ASI / division-regex clauses through the rules of C04/C05. Not a proof of language equality with ECMA-262: the Earley cross-check is bounded, identifier/punctuator segmentation is C06.',
+    ref='DESIGN.md sections 3 (C03), 9, 13.1',
+    note='Trusted: CPython ast and re._parser, transcription of ply.yacc.parse_grammar, ply LALR construction used as a library on extracted (lhs, rhs) tuples, embedded ES5.1 reference grammar and lexical reference patterns. Analyses /repo/src text only.')
 
 NA = {
  'C09': 'every clause is arithmetic over running delta accumulators along an unbounded fragment stream; no structural necessary condition in reach of static analysis beyond what a unit test asserts (DESIGN.md section 5)',
@@ -17,10 +17,10 @@ CHECKS['C04'] = dict(
     ref='DESIGN.md section 3 C04',
     note='Trusted: CPython ast, the abstract evaluator engine/absint.py (interprets syntax trees over stand-in values; no repository code is imported), ECMA-262 7.9.1 facts embedded in the checker.')
 CHECKS['C05'] = dict(
-    technique='static analysis: terminal adjacency fixpoint of the grammar with role-split reserved words vs the look-behind frozensets; abstract evaluation of the division decision expression and of p_error over token contexts x marker runs',
-    text='Decides the table/grammar agreement exhaustively (94 terminals) and the layout transparency and header-stack behaviour on 700 abstract contexts; the stack discipline for arbitrarily deep nesting is not decided.',
-    ref='DESIGN.md section 3 C05',
-    note='Trusted: CPython ast, abstract evaluator, adjacency fixpoint. The decision expression is located in Lexer._token by a backward slice from the branch that calls _read_regex(); if that shape disappears the check stops with ANALYSIS-ERROR.')
+    technique='static analysis: terminal adjacency fixpoint of the grammar with role-split reserved words vs the look-behind frozensets; Lexer._token evaluated from its source (peek loop, comment bypass, decision, helper methods; only the raw ply reader is a stand-in) over token contexts x marker runs x candidate characters; decision table of the re-lex branch of p_error',
+    text='Decides the table/grammar agreement exhaustively (94 terminals), the layout transparency and header-stack behaviour on ~620 abstract contexts (thorough: all marker runs up to length 3), the peek set against t_ignore and the comment bypass for every ASCII follower. The stack discipline for arbitrarily deep nesting is not decided.',
+    ref='DESIGN.md sections 3 (C05), 13.3',
+    note='Trusted: CPython ast, the evaluator engine/absint.py (interprets syntax trees over stand-in values; no repository code is imported), adjacency fixpoint. No syntactic shape of _token is assumed any more.')
 
 CHECKS['C11'] = dict(
     technique='static analysis: abstract interpretation of every parser action per production alternative (typestate: constructed node must reach setpos), index/extent/nullability rules over the grammar, abstract evaluation of findpos/lookup_colno',
@@ -49,16 +49,16 @@ CHECKS['C15'] = dict(
     ref='DESIGN.md section 3 C15',
     note='Trusted: CPython ast; ply builds its objects per yacc()/lex() call and shares table modules read-only.')
 CHECKS['C18'] = dict(
-    technique='static analysis: acquire/release pairing over the statement structure of io.read / io.write with exception edges (must-pass-through finally, registration iff acquisition, no swallowing handlers)',
-    text='Decides the stream closing discipline on all paths including exceptional ones. Text/URL equality clauses are runtime data and not decided.',
-    ref='DESIGN.md section 3 C18',
-    note='Trusted: CPython ast. The helpers are recognised by shape; an unrecognised restructuring stops the check with ANALYSIS-ERROR.')
+    technique='static analysis by partial evaluation: io.read and io.write are evaluated from their syntax trees with stand-in streams, parser, printer and source-map writer for every arrangement of factories / open streams and every step that can fail (fault-injection decision tables: 9 + 37 cells); utils.normrelpath, sourcemap.verify_write_sourcemap_args and the inline branch of write_sourcemap are folded on tables of path pairs and charsets',
+    text='Decides the closing discipline exhaustively over the modelled arrangements and fault points (each stand-in step fails or not), propagation of failures, the re-labelling of syntax errors, that the printer output and the streams reach the source-map writer unchanged, and - on a finite table, not exhaustively - that the computed relative references designate the right files and that the inline data URL decodes to the map. Equality of the written text with the printer output is not decided.',
+    ref='DESIGN.md sections 3 (C18), 9.2, 13.1',
+    note='Trusted: CPython ast, the evaluator, posixpath as the meaning of os.path. exhaustive over fault points of the stand-ins; sampled over path strings.')
 
 CHECKS['C12'] = dict(
-    technique='static analysis: raise-site classification, contradictory-null-belief analysis with guard dominance (Engler), partial-operation lint with frozen triage table; one inter-procedural summary obtained by abstract evaluation',
-    text='Decides the exception-type clause: every raise site, every dereference of a believed-nullable value (27) and every subscript / dict-literal lookup / match-result use on the lex/parse error paths. Termination is not decided.',
-    ref='DESIGN.md section 3 C12',
-    note='Trusted: CPython ast, the triage table in checks/c12.py (each entry has a one-line reason), ply calls t_error with a non-empty remainder.')
+    technique='static analysis: raise-site classification, contradictory-null-belief analysis with guard dominance (Engler) using per-method write summaries and one callee summary obtained by evaluation, checked never-empty-list invariants for stack/index attributes, partial-operation lint, and decision tables: Parser._raise_syntax_error over the presence of its three tokens and broken_string_token_handler over all remaining-input strings up to length 3 (thorough 4) of an 11-character lexical alphabet, evaluated from source',
+    text='Decides the exception-type clause: every raise site, every dereference of a believed-nullable value, every subscript / dict lookup on the lex/parse error paths, and totality of the two error-message builders on the enumerated inputs. Termination and the position quoted in messages are not decided.',
+    ref='DESIGN.md sections 3 (C12), 13.3',
+    note='Trusted: CPython ast, the evaluator, two triage entries with a one-line reason each (checks/c12.py), ply calls t_error with a non-empty remainder.')
 CHECKS['C13'] = dict(
     technique='static analysis: def-use of the capture flags and of the hidden-token buffer, abstract evaluation of Node.set_comments and Lexer.token, per-action uniqueness of setpos token slots, structural rule over the comment definitions vs the restricted productions',
     text='Decides non-interference of the flag, verbatim/ordered/positioned attachment, single attachment, and the restricted-production clause of the printing half. Re-attachment after re-layout is not decided.',
@@ -66,26 +66,26 @@ CHECKS['C13'] = dict(
     note='Trusted: CPython ast, abstract evaluator, action interpreter, definitions model.')
 
 CHECKS['C20'] = dict(
-    technique='static analysis of the definitions table and the indent rule table as data: Indent/Dedent balance on every path, lock-step with braces, position of line breaks in layout sequences, decision tables of the Indentator handlers by abstract evaluation',
-    text='Exhaustive over all 56 definitions and their Optional/Join paths and over the handler decision tables for three indentation strings; walker.process_layouts and the ruletypes token classes are transcribed and digest-guarded (a structural change there stops the check with ANALYSIS-ERROR).',
-    ref='DESIGN.md section 3 C20',
-    note='Trusted: transcription of walker.process_layouts and of the rule-class semantics (digest-guarded), abstract evaluator.')
+    technique='static analysis of the definitions table and the indent rule table as data: Indent/Dedent balance on every path, lock-step with braces, position of line breaks in layout sequences, decision tables of the Indentator handlers by evaluation; ruletypes Token classes and walker.walk/Dispatcher are evaluated from source on abstract scenarios and must agree with the flattening the rules assume (else ANALYSIS-ERROR: stale model)',
+    text='Exhaustive over all 56 definitions and their Optional/Join paths and over the handler decision tables for three indentation strings.',
+    ref='DESIGN.md sections 3 (C20), 9.1',
+    note='Trusted: the evaluator; the flattening model is compared with the evaluated walker on 2220 scenarios on every run (no digests).')
 CHECKS['C07'] = dict(
     technique='static analysis: scope-marker balance over definition paths, rule-table shape, def-use of the reserved-word skip set through default arguments, decision tables of Scope/CatchScope bookkeeping by abstract evaluation on abstract scope trees',
     text='Decides necessary conditions only (marker balance, spelling-only change, reserved-word skip set, composition of the per-scope reserved set). Capture freedom over arbitrary scope trees is NOT decided.',
     ref='DESIGN.md section 3 C07',
     note='Narrow claim. Trusted: definitions model, abstract evaluator, ES5 reserved word list.')
 CHECKS['C10'] = dict(
-    technique='static analysis: folded module constants (alphabet, shift, masks) and writer/reader agreement on names, literals and separators',
-    text='Decides canonical alphabet/constants and writer/reader table agreement only. The bijection law over all integers is arithmetic and NOT decided.',
-    ref='DESIGN.md section 3 C10',
-    note='Narrow claim; a necessary condition of canonical form and nothing more.')
+    technique='static analysis: folded module constants (RFC 4648 alphabet, inverse table, shift/mask/continuation) and constant folding of the codec functions (encode_vlq, vlq_decoder, decode_vlq, encode/decode_vlqs, encode/decode_mappings evaluated from source) on every 5-bit group boundary up to 2**49 plus a few larger values, against an independent 10-line reference encoder',
+    text='Decides the alphabet and constants exactly, and the canonical digits and the inverse law on the group boundaries (where the number of digits or a carry changes): a necessary condition, exhaustive: false. The bijection law for every integer is arithmetic and NOT decided.',
+    ref='DESIGN.md sections 3 (C10), 9.2, 13.3',
+    note='Narrow claim. The name/literal heuristics of earlier rounds were removed (they fired on behaviour-preserving rewrites).')
 
 CHECKS['C01'] = dict(
-    technique='static analysis: definition/production skeleton alignment (abstract interpretation of actions x definitions table), print-grammar FIRST/LAST window analysis x abstract evaluation of the layout handlers x lexer-rule automata (regex syntax trees -> DFAs over character-class atoms) for token fusion, restricted-production and position-independence rules',
-    text='Decides the three premises of the round-trip induction on tables: every (token class, layout run, token class) window the pretty printer can emit (about 600) x boundary character classes is either separated by printed white space or shown not to fuse on the automata of the repository\'s own token rules; ES5 7.8.3 adjacency is included. Not a behavioural proof: walker.walk and the rule-class semantics are transcribed (digest-guarded).',
-    ref='DESIGN.md section 3 C01',
-    note='Trusted: CPython ast and re._parser, transcriptions of walker.process_layouts / ply.lex rule order / ruletypes semantics (digest-guarded), ES5 reference facts.')
+    technique='static analysis: definition/production skeleton alignment (abstract interpretation of actions x definitions table), bounded enumeration of array literals with elisions (actions and token classes evaluated from source), print-grammar FIRST/LAST window analysis x layout handlers evaluated from source x walker.process_layouts evaluated from source x lexer-rule automata (regex syntax trees -> DFAs over character-class atoms) for token fusion; ruletypes Token classes and walker.walk evaluated on decision tables (no transcription is trusted unchecked); restricted-production and position-independence rules',
+    text="Decides the premises of the round-trip induction on tables: every (token class, layout run, token class) window the pretty printer can emit (about 600) x boundary character classes is either separated by printed white space or shown not to fuse on the automata of the repository's own token rules; ES5 7.8.3 adjacency is included. Not a behavioural proof: the print grammar abstracts the tree to token classes.",
+    ref='DESIGN.md sections 3 (C01), 9.1',
+    note='Trusted: CPython ast and re._parser, transcription of ply.lex rule order, ES5 reference facts, the evaluator.')
 CHECKS['C02'] = dict(
     technique='same machinery as C01 under the minify(drop_semi off/on) tables, plus an EndStatement-site x FOLLOW-context enumeration of the print grammar for the semicolon-dropping rule and a language-equality check of the continuation pattern',
     text='Decides no-fusion for about 2300 windows x boundary classes per table, the complete table of semicolon contexts (268 site x context x table cells) and that continuation stripping is the only literal rewrite. The C05 findings are assumed for re-lexing of `/`.',
@@ -93,12 +93,12 @@ CHECKS['C02'] = dict(
     note='Trusted: as C01.')
 
 CHECKS['C06'] = dict(
-    technique='static analysis: token regexes compiled from source to DFAs over character-class atoms (CPython re._parser as front end) and compared with ES5 reference automata; ply rule order reconstructed and every ordered rule pair checked for ordered-choice = longest-match; effect analysis of token attribute stores; decision tables of the line/column bookkeeping by abstract evaluation',
-    text='Decides the lexical tables: white-space/terminator/comment languages (automata equivalence), longest-first for all 1500+ ordered rule pairs, exact keyword set, no token rewriting, one line-index update per token. ply\'s own offset bookkeeping is outside the repository.',
-    ref='DESIGN.md section 3 C06',
-    note='Trusted: CPython re._parser, transcription of ply.lex rule ordering, ES5 7.2-7.6 reference sets, assumption that each rule\'s Python regex match is its longest match (checked for the look-ahead alternatives).')
+    technique='static analysis: token regexes compiled from source to DFAs over character-class atoms (CPython re._parser as front end) and compared with ES5 reference automata (white space, terminators, comments: equivalence; NUMBER/STRING/REGEX: inclusion both ways with shortest witnesses); ply rule order reconstructed and every ordered rule pair checked for ordered-choice = longest-match; effect analysis of token attribute stores; Lexer.token evaluated from source on a raw stream per token type; decision tables of the line/column bookkeeping by evaluation, for every token type whose rule can match a line terminator',
+    text="Decides the lexical tables: gap and literal languages (automata, exact), longest-first for all 1500+ ordered rule pairs, exact keyword set, no token rewriting, which raw tokens reach the parser, one line-index update per token. ply's own offset bookkeeping is outside the repository.",
+    ref='DESIGN.md sections 3 (C06), 13.1',
+    note="Trusted: CPython re._parser, transcription of ply.lex rule ordering, ES5 7.2-7.8 reference patterns, assumption that each rule's Python regex match is its longest match (checked for the look-ahead alternatives).")
 CHECKS['C19'] = dict(
-    technique='static analysis: agreement of two literal grammars - STRING/NUMBER lexer automata restricted to JSON spellings vs Python string-escape / number semantics (embedded reference tables), plus the shape of the extractor definitions',
-    text='Decides literal-spelling agreement ES5 <-> literal_eval only (9 escapes, number sub-language inclusion, true/false/null). The value pipeline of the extractor is NOT decided.',
-    ref='DESIGN.md section 3 C19',
-    note='Narrow claim. Trusted: ES5 7.8.4 table, Python escape table, RFC 8259 number grammar.')
+    technique='static analysis by partial evaluation: the token classes that extract String / Number / Boolean / Null (whatever the extractor definitions name) and GroupAsMap / GroupAsList / unary minus are evaluated from their syntax trees with stand-in walk/dispatcher on every JSON string escape, unicode escapes, 15 number spellings and small grouping cases, and compared with the JSON value; lexer automata decide that the lexemes are accepted',
+    text='Decides literal agreement ES5 <-> extracted Python value for the enumerated spellings (all JSON escapes: exhaustive; numbers: sampled forms) and the last-binding-wins / order-preserving grouping. The rest of the value pipeline (AssignmentList plumbing, operator folding) is NOT decided.',
+    ref='DESIGN.md sections 3 (C19), 9.2',
+    note='Narrow claim. Trusted: json / ast.literal_eval of the standard library as oracles for a literal, the evaluator.')
